@@ -3,6 +3,7 @@ package scen
 import (
 	"fmt"
 	"strings"
+	"time"
 
 	"simh/codec"
 	"simh/env"
@@ -126,6 +127,40 @@ func runC03(c *Ctx) {
 	for _, h := range tw.Cfg.Hosts {
 		subst[strings.Replace(h, "{{ preferred_username }}", p.User, 1)] = true
 	}
+	// history: another user may have used the gateway before (state such as caches must not
+	// carry one user's authorisation over to the next)
+	warm := ""
+	if mode != "signed" && c.T.Bool(1, 2) {
+		wu := "user1"
+		wh := p.AllowedHost
+		if placeholder && mode != "any" {
+			wh = other
+		} else if c.T.Bool(1, 2) {
+			wh = "second.test:3390"
+		}
+		if c.W.Host[wh] == nil {
+			c.W.AddHost(wh, [][]byte{[]byte("hello from " + wh)})
+		}
+		wp := &TunPlan{Name: "w0", Transport: []string{"ws", "legacy"}[c.T.Choose(2)], From: "10.1.9.9:41999", ConnID: fmt.Sprintf("{WARM-%d}", c.Res.Seed), User: wu, AllowedHost: wh, CloseAfter: -1}
+		wp.AccessToken = c.W.IdP.IssueAccessToken(wu)
+		wp.Pkts = []CPkt{PHandshake(tw.MC.ServerCaps, 1, 0), PTunnelCreate(ValidCookie(c, tw, wp, wh), true), PTunnelAuth("w"), PChannel(wh, HostAllowed), PData([]byte("warm")), PClose()}
+		wt := StartTunnels(c, []*TunPlan{wp})
+		RunTunnels(c, wt, 2000)
+		c.S.Draining = false
+		wt[0].Hosts = []*env.Host{c.W.Host[wh]}
+		CheckTunnel(c, wt[0], tw.MC, "C03")
+		if c.S.Viol != nil {
+			return
+		}
+		wt[0].Client.CloseAll(false)
+		c.S.Run(nil, 200, time.Second)
+		warm = fmt.Sprintf(" after user1 opened %q;", wh)
+	}
+	dialsBefore := len(c.S.DialLog)
+	connsBefore := map[string]int{}
+	for a, h := range c.W.Host {
+		connsBefore[a] = len(h.Conns)
+	}
 	req := nearMiss(c, entry, other)
 	// the token host: what the gateway embedded at issuance; either the configured entry or
 	// (as a token from 'any' mode would) exactly what is now requested
@@ -178,7 +213,7 @@ func runC03(c *Ctx) {
 		return
 	}
 	// the dial log of the whole run: every dial must be the authorised request, verbatim
-	for _, d := range c.S.DialLog {
+	for _, d := range c.S.DialLog[dialsBefore:] {
 		if !authorised {
 			c.S.Fail("C03", "dial-unauthorised-host", "mode=%s user=%q token-host=%q request{%s %q}: refused by policy, yet the gateway dialed %q", mode, p.User, tokenHost, req.kind, req.key, d.To)
 			break
@@ -191,7 +226,7 @@ func runC03(c *Ctx) {
 	if c.S.Viol == nil {
 		// hosts other than the authorised one must have seen nothing
 		for addr, h := range c.W.Host {
-			if len(h.Conns) > 0 && !(authorised && addr == req.key) {
+			if len(h.Conns) > connsBefore[addr] && !(authorised && addr == req.key) {
 				c.S.Fail("C03", "connection-to-unrequested-host", "host %q accepted a connection; authorised=%v request=%q", addr, authorised, req.key)
 			}
 		}
@@ -209,8 +244,8 @@ func runC03(c *Ctx) {
 		}
 		if c.S.Viol == nil && authorised {
 			c.S.Count("probe.authorised_channel")
-			if len(c.S.DialLog) != 1 {
-				c.S.Fail("C03", "no-dial-for-authorised", "request %q is authorised but %d dials were made", req.key, len(c.S.DialLog))
+			if len(c.S.DialLog)-dialsBefore != 1 {
+				c.S.Fail("C03", "no-dial-for-authorised", "request %q is authorised but %d dials were made", req.key, len(c.S.DialLog)-dialsBefore)
 			}
 		}
 		if c.S.Viol == nil && !authorised {
@@ -219,6 +254,6 @@ func runC03(c *Ctx) {
 		_ = v
 	}
 	c.Res.Reach = len(t.Client.Sent) >= 4
-	c.Samplef("%s mode=%s hosts=%v user=%q token-host=%q request{%s raw=%s declared=%d port=%d key=%q} authorised=%v dials=%d events=%s",
-		p.Transport, mode, tw.Cfg.Hosts, p.User, tokenHost, req.kind, short(req.name), req.declared, req.port, req.key, authorised, len(c.S.DialLog), t.Client.Describe())
+	c.Samplef("%s%s mode=%s hosts=%v user=%q token-host=%q request{%s raw=%s declared=%d port=%d key=%q} authorised=%v dials=%d events=%s",
+		p.Transport, warm, mode, tw.Cfg.Hosts, p.User, tokenHost, req.kind, short(req.name), req.declared, req.port, req.key, authorised, len(c.S.DialLog), t.Client.Describe())
 }
